@@ -7,6 +7,7 @@ package main
 // the real Parser.ParseValExp.
 
 import (
+	"fmt"
 	"strconv"
 	"strings"
 
@@ -160,4 +161,101 @@ func c08LrSem(c *Ctx) {
 				Input: strconv.Quote(s), Impl: real, Model: f[1], Broken: "correspondence C08.lrcmp (Martian.LexerLR.parseLR)"})
 		}
 	}
+
+	// bounded-exhaustive: EVERY token sequence of length <= 4 (thorough: <= 5) over an alphabet with one
+	// token of each kind the value-expression grammar distinguishes (18 tokens), compared inside the driver
+	maxLen := 4
+	if c.Thorough {
+		maxLen = 5
+	}
+	for k := 0; k <= maxLen; k++ {
+		rep := c.Drv.Ask("C08.lrexh", strconv.Itoa(k))
+		f := strings.Fields(rep)
+		if len(f) < 3 {
+			fatal("C08.lrexh: bad reply %q", rep)
+		}
+		nseq, _ := strconv.Atoi(f[0])
+		r.Evals += nseq
+		r.hist(fmt.Sprintf("lr-vs-reader:exhaustive-length-%d:%s-sequences:%s-accepted", k, f[0], f[1]))
+		if f[2] != "all-same" {
+			r.violate(Violation{Kind: "correspondence", Key: "C08:lr-vs-reader-mismatch",
+				What:  fmt.Sprintf("bounded-exhaustive comparison (all token sequences of length %d): the goyacc parser model and x-c09's reader disagree", k),
+				Input: strings.Join(f[3:], " "), Broken: "hypothesis LRAgrees of Props/C09Tie.lean"})
+		}
+	}
+	// call statements: `file: call_stm` through the goyacc model vs x-c09's pCall2
+	nc := 3000
+	if c.Thorough {
+		nc = 60000
+	}
+	var csrc []string
+	for i := 0; i < nc; i++ {
+		e := c08LrGenCall(c)
+		csrc = append(csrc, e, c08LrMutate(c, e))
+	}
+	csrc = append(csrc, "call S()", "map call S()", "call local()", "call local local(x = 1,)", "call S(x = split,)", "map call S(x = split split,)",
+		"call S(* = self,)", "call S(x = 1, * = T,) using () using (local = true,)", "call S(x = 1,) call T()", "stage S(in int x, src py \"s\",)\ncall S(x = 1,)")
+	creqs := make([][]string, len(csrc))
+	for i, s := range csrc {
+		creqs[i] = []string{"C08.lrcmpcall", hx(s)}
+	}
+	for i, rep := range c.Drv.AskBatch(creqs) {
+		s := csrc[i]
+		f := strings.Fields(rep)
+		r.count("lrsemcall:"+s, len(f) >= 2 && f[1] == "some")
+		switch {
+		case rep == "nolex":
+			r.hist("lr-vs-reader:call:no-tokens(INVALID)")
+		case strings.HasPrefix(rep, "differ"):
+			small := c08ShrinkBytes(s, func(x string) bool {
+				return strings.HasPrefix(c.Drv.Ask("C08.lrcmpcall", hx(x)), "differ")
+			}, 150)
+			r.violate(Violation{Kind: "correspondence", Key: "C08:lr-vs-reader-mismatch:call",
+				What:  "the goyacc parser model with semantic values (parseLRCall) and x-c09's reader of a call statement (FormatCall2.pCall2) give different results on the tokens of a source",
+				Input: strconv.Quote(small), Impl: c.Drv.Ask("C08.lrcmpcall", hx(small)), Broken: "hypothesis LRCallAgrees of Props/C09Tie.lean (checked per run, not proved)"})
+		default:
+			r.hist("lr-vs-reader:call:same:" + f[1])
+		}
+	}
+}
+
+func c08LrGenCall(c *Ctx) string {
+	pick := func(xs ...string) string { return xs[c.Rng.Intn(len(xs))] }
+	sp := func() string { return pick(" ", " ", "\n", "  ", " # c\n") }
+	isMap := c.Rng.Intn(3) == 0
+	var sb strings.Builder
+	if isMap {
+		sb.WriteString("map" + sp())
+	}
+	sb.WriteString("call" + sp())
+	for c.Rng.Intn(3) == 0 {
+		sb.WriteString(pick("local", "preflight", "volatile") + sp())
+	}
+	sb.WriteString(pick("S", "T_1", "local", "split", "struct", "P") + sp())
+	if c.Rng.Intn(4) == 0 {
+		sb.WriteString("as" + sp() + pick("A", "S", "volatile") + sp())
+	}
+	sb.WriteString("(")
+	n := c.Rng.Intn(4)
+	for i := 0; i < n; i++ {
+		id := pick("x", "y", "x", "p", "split", "mem_gb", "_z")
+		val := c08LrGenExp(c, 2)
+		if isMap && c.Rng.Intn(2) == 0 {
+			val = "split" + sp() + pick("[1, 2]", "{\"a\": 1}", "self.xs", "T.ys", "[]", "{}", "1", c08LrGenExp(c, 1))
+		}
+		sb.WriteString(sp() + id + sp() + "=" + sp() + val + ",")
+	}
+	if c.Rng.Intn(4) == 0 {
+		sb.WriteString(sp() + "*" + sp() + "=" + sp() + pick("self", "T", "self.x", "T.out", "1", "self.x.y") + ",")
+	}
+	sb.WriteString(sp() + ")")
+	for c.Rng.Intn(4) == 0 {
+		sb.WriteString(sp() + "using" + sp() + "(")
+		m := c.Rng.Intn(3)
+		for i := 0; i < m; i++ {
+			sb.WriteString(sp() + pick("local = true,", "volatile = false,", "preflight = true,", "disabled = self.d,", "disabled = T.off,", "local = 1,", "disabled = true,", "threads = 1,"))
+		}
+		sb.WriteString(sp() + ")")
+	}
+	return sb.String()
 }
